@@ -114,7 +114,7 @@ theorem c07_rejected_tx_changes_nothing (wall : Nat) (s : State) (tx : Tx)
       (fun a b he => by cases he with
         | none hs => subst hs; exact ⟨rfl, rfl⟩
         | unlock _ _ _ _ _ _ hs => subst hs; exact ⟨rfl, rfl⟩
-        | deduct _ _ _ hs => subst hs; exact ⟨rfl, rfl⟩) _ _ s s1 h1
+        | deduct _ _ _ _ _ _ hs => subst hs; exact ⟨rfl, rfl⟩) _ _ s s1 h1
   unfold deliverTx at h ⊢
   split
   · exact ⟨rfl, rfl⟩
